@@ -27,6 +27,9 @@ import (
 const (
 	// Maximum number of symlinks in a path.
 	slCountMax = 40
+
+	// Maximum size of a file : its content is held in one byte slice.
+	maxFileSize = 1<<31 - 1
 )
 
 // MemIOFS implements a memory file system using the avfs.IOFS interface.
